@@ -38,8 +38,16 @@ def gen(ctx):
     for sid in range(256):
         n += 1
         cases.append(mk_case("c20s_%d" % n, [("ping", cmd_ping(), sid), ("query", cmd_query(b"q"), (sid * 7) % 256)], []))
-    # empty packet
+    # empty packets: alone, before / between / after commands, with more bytes behind them in the same read or
+    # in a later one, with any sequence id
     cases.append(mk_case("c20e", [("raw", b"", 0)], []))
+    for k, (before, after) in enumerate([([], [("ping", cmd_ping(), 0)]), ([("ping", cmd_ping(), 0)], [("ping", cmd_ping(), 0)]),
+                                         ([("query", cmd_query(b"q"), 0)], [("rawbytes", b"\x01")]), ([], [("rawbytes", b"\x00\x00")]),
+                                         ([("ping", cmd_ping(), 0)], [("raw", b"", 1), ("ping", cmd_ping(), 0)])]):
+        for sid in (0, 1, 255):
+            for chunks in ([2048], [1], [4], [5, 3]):
+                n += 1
+                cases.append(mk_case("c20e_%d" % n, before + [("raw", b"", sid)] + after, ["q done 0 0"], chunks=chunks))
     # execute-block mutations
     base_types = [(3, False), (253, False), (8, True)]
     vals = [le(5, 4), lenenc_str(b"hello"), le(7, 8)]
